@@ -177,6 +177,39 @@ def gcWith (v : Variant) (s : Store) (reach : List Id) (prune : Bool) (grace : O
   let s1 : Store := { s with loose := s.loose.filter (fun e => !sel.contains e.1) }
   repack v s1 sel now
 
+/-! ### maintenance from a long-lived handle whose pack cache may be stale
+
+`view` is what `self.packs` returns in that handle: its cached `Pack` objects, in cache order — some of them possibly of
+files that ANOTHER process has removed since — followed by the packs a directory rescan finds.  The rescan closes the
+cached packs whose files are gone, so touching one (`pack.name()`) raises `PackFileDisappeared`: the operation stops
+before it has deleted anything.  A pack of the view is "on disk" iff it is one of `s.packs`. -/
+
+/-- `_complete_pack`'s "are these objects already packed?" loop over `self.packs`.  `none` = `PackFileDisappeared`.
+`trustStale = true` is NOT the code: it is the variant in which a cached pack counts as holding the objects without the
+directory being consulted (kept for the regression witness). -/
+def installPackV (v : Variant) (trustStale : Bool) (disk : List Pack) (objs : List Id) (now : Nat) :
+    List Pack → Option (List Pack)
+  | [] => some (disk ++ [{ ids := objs, mtime := now }])
+  | p :: rest =>
+    if disk.contains p then
+      if sameSet p.ids objs then
+        some (if v.refreshExisting then disk.map (fun q => if q = p then { q with mtime := now } else q) else disk)
+      else installPackV v trustStale disk objs now rest
+    else if trustStale then
+      if sameSet p.ids objs then some disk else installPackV v trustStale disk objs now rest
+    else none
+
+/-- `pack_loose_objects()` from a handle with the given view: (resulting store, raised?) -/
+def packLooseV (v : Variant) (trustStale : Bool) (view : List Pack) (s : Store) (now : Nat) : Store × Bool :=
+  if s.looseIds.isEmpty then (s, false)
+  else match installPackV v trustStale s.packs (dedup s.looseIds) now view with
+    | none => (s, true)
+    | some pk => ({ loose := [], packs := pk, alts := s.alts }, false)
+
+/-- `repack()` from a handle with the given view: `{p.name(): p for p in self.packs}` raises on a vanished pack -/
+def repackV (v : Variant) (view : List Pack) (s : Store) (now : Nat) : Store × Bool :=
+  if view.any (fun p => !s.packs.contains p) then (s, true) else (repack v s [] now, false)
+
 /-! ### operations as data -/
 
 inductive Op where
@@ -200,6 +233,21 @@ def apply (v : Variant) (G : Id → List Id) (roots : List Id) (fuel : Nat) (op 
 def applyAll (v : Variant) (G : Id → List Id) (roots : List Id) (fuel : Nat) : List Op → Store → Option Store
   | [], s => some s
   | op :: ops, s => (apply v G roots fuel op s).bind (applyAll v G roots fuel ops)
+
+/-- One maintenance operation from a handle with the given view of the packs.  `prune_unreachable_objects` and
+`garbage_collect` iterate the store first, which rescans the pack directory: they do not depend on the view.
+Returns (store, raised `PackFileDisappeared`?). -/
+def applyV (v : Variant) (G : Id → List Id) (roots : List Id) (fuel : Nat) (view : List Pack) (op : Op) (s : Store) :
+    Option (Store × Bool) :=
+  match op with
+  | .packLoose now => some (packLooseV v false view s now)
+  | .repack now => some (repackV v view s now)
+  | _ => (apply v G roots fuel op s).map (fun s' => (s', false))
+
+/-- a sequence of operations, each from its own (arbitrary) view; an operation that raises leaves the store as it was -/
+def applyAllV (v : Variant) (G : Id → List Id) (roots : List Id) (fuel : Nat) : List (List Pack × Op) → Store → Option Store
+  | [], s => some s
+  | (view, op) :: ops, s => (applyV v G roots fuel view op s).bind (fun r => applyAllV v G roots fuel ops r.1)
 
 /-- the default `grace_period` argument of `garbage_collect` (regenerated from the source) -/
 def defaultGrace : Option Nat := some Dulwich.Gen.GC.defaultGracePeriod
